@@ -3,23 +3,13 @@
 -/
 import KernModel.Doc
 import KernModel.Spec.Tracker
+import KernModel.Spec.TextExport
 import KernProofs.Lemmas.ImporterInv
 import KernProofs.C02Tree
 namespace KM.C02K
 open Importer
 open KM.Spec.Track
 open KM.C02T
-
-/-- the token a cell gets, given the text of the `**` cell of its spine -/
-def cellTok (P : CellParser) (hdrEnc : Option Str) (i : Nat) (col : Str) : Tok :=
-  if startsWith ['*', '*'] col then .header col i
-  else if isSpineOp col then .simple .SpineOperationToken col .SPINE_OPERATION false
-  else if startsWith ['!'] col then .simple .FieldCommentToken col .FIELD_COMMENTS false
-  else match hdrEnc with
-    | some h => (match P h col with
-      | some t => t
-      | none => .simple .ErrorToken col .ERROR false)
-    | none => .simple .ErrorToken col .ERROR false
 
 /-- the header text the code looks up for column `i` -/
 def modelHdrEnc (acc : RowAcc) (i : Nat) : Option Str :=
@@ -122,30 +112,6 @@ theorem cellStep_tok (P : CellParser) (row : List Str) (stage : Nat) (acc acc' :
                   · cases h
                     exact ⟨⟨some v.1, some pc, p.hdr, p.sigs, lastOpOf acc.st.stages pc⟩, rfl, by rw [hv1]⟩
 /-! ### the specification: tracker + the texts of the `**` cells + the expected tokens -/
-
-structure TT where
-  t : T
-  hdrs : List (Coord × Str)            -- coordinate of every `**` cell seen so far, with its text
-  toks : List (List (Option Tok))
-
-def TT.init : TT := ⟨Spec.Track.init, [], [[none]]⟩
-
-/-- the text of the `**` cell of the spine a cell at column `i` belongs to -/
-def specHdr (tt : TT) (i : Nat) : Option Str := (tt.t.live[i]?).bind (fun p => lookup p.2 tt.hdrs)
-
-def TT.step (P : CellParser) (tt : TT) (row : List Str) : TT :=
-  match row with
-  | [] => tt
-  | c0 :: _ =>
-    let stage := tt.t.skel.length
-    if startsWith ['!', '!'] c0 then
-      ⟨Spec.Track.step tt.t row, tt.hdrs, tt.toks ++ [[some (.simple .MetacommentToken (stripS c0) .LINE_COMMENTS false)]]⟩
-    else
-      ⟨Spec.Track.step tt.t row,
-       tt.hdrs ++ row.zipIdx.filterMap (fun ci => if isHeaderCell ci.1 then some ((stage, ci.2), ci.1) else none),
-       tt.toks ++ [row.zipIdx.map (fun ci => some (cellTok P (specHdr tt ci.2) ci.2 ci.1))]⟩
-
-def TT.run (P : CellParser) (rows : List (List Str)) : TT := rows.foldl (TT.step P) TT.init
 
 theorem TT.step_t (P : CellParser) (tt : TT) (row : List Str) : (tt.step P row).t = Spec.Track.step tt.t row := by
   cases row with
